@@ -151,6 +151,9 @@ def make(mags, dim, shape_is_array, as_int=False, via_ctor=False, route=0):
     if name == 'bare zero':
         return 0 if as_int else 0.0
     if name == 'number':
+        if shape_is_array:
+            # a plain array / list of numbers as operand
+            return list(mags) if via_ctor else np.array(mags, dtype=float)
         return mags[0]
     u = unit_by_route(unit, route)
     if shape_is_array:
@@ -201,6 +204,13 @@ def check_pair(ctx, key, da, db, mclass, shape, ma, mb):
     hk = sum(map(ord, ''.join(map(str, key))))
     ra, rb = hk % len(ROUTES), (hk // 7 + len(ma) + int(abs(ma[0]) * 1000)) \
         % len(ROUTES)
+    # plain-number arrays: one that merely CONTAINS a zero is not the bare
+    # zero (class a<b), an all-zero one is (classes zero-magnitude / both zero)
+    if mclass == 'a<b':
+        if da[0] == 'number' and arr_a:
+            ma = [0.0] + list(ma[1:])
+        if db[0] == 'number' and arr_b:
+            mb = [0.0] + list(mb[1:])
     A = make(ma, da, arr_a, via_ctor=ctor, route=ra)
     B = make(mb, db, arr_b, as_int=(len(key) % 2 == 0), via_ctor=not ctor,
              route=rb)
@@ -215,9 +225,9 @@ def check_pair(ctx, key, da, db, mclass, shape, ma, mb):
                           'quantity object', {'unit': dim[1], 'class': dim[0]},
                           {'got': repr(X)[:120]})
             return
-    va = np.array(ma) if (arr_a and a_is_q) else (
+    va = np.array(ma) if (arr_a and (a_is_q or da[0] == 'number')) else (
         0.0 if da[0] == 'bare zero' else ma[0])
-    vb = np.array(mb) if (arr_b and b_is_q) else (
+    vb = np.array(mb) if (arr_b and (b_is_q or db[0] == 'number')) else (
         0.0 if db[0] == 'bare zero' else mb[0])
     from pgradd.Units import eval_qty
     if a_is_q:
@@ -257,8 +267,12 @@ def check_pair(ctx, key, da, db, mclass, shape, ma, mb):
         ctx.klass('operand route tail: ' + tail[0])
     veca = da[2] if a_is_q else ZERO7
     vecb = db[2] if b_is_q else ZERO7
-    bare_a = (not a_is_q) and float(va) == 0.0
-    bare_b = (not b_is_q) and float(vb) == 0.0
+    bare_a = (not a_is_q) and bool(np.all(np.asarray(va) == 0.0))
+    bare_b = (not b_is_q) and bool(np.all(np.asarray(vb) == 0.0))
+    if (not a_is_q and np.ndim(va)) or (not b_is_q and np.ndim(vb)):
+        ctx.klass('plain array operand (%s)' % (
+            'all zero' if (bare_a or bare_b) else 'contains a zero'
+            if mclass == 'a<b' else 'non-zero'))
     compatible = (a_is_q and b_is_q and same_vec(veca, vecb)) or \
         (a_is_q and bare_b) or (b_is_q and bare_a)
     case = {'a': [da[0], da[1], ma], 'b': [db[0], db[1], mb],
